@@ -185,7 +185,7 @@ impl Cmd {
                         Self::Replace(
                             Movement::ForwardChar(
                                 RepeatCount::try_from(last_insert.as_ref().map_or(0, String::len))
-                                    .unwrap(),
+                                    .unwrap_or(RepeatCount::MAX),
                             ),
                             last_insert,
                         )
